@@ -24,15 +24,15 @@ CHECKS = {
             "Trusts Python's unicodedata (UCD 14) from which harness/data/mathvariant_expected.json was generated, and the encoding of the documented fall-backs in c18.rs::allowed.",
             "DESIGN.md 3/C18"),
     "C17": ("metamorphic property-based testing (surface re-spellings of one expression must give identical outputs) plus an exhaustive differential sweep of the entity table against Python's html.entities.html5",
-            "Generated: a base expression is re-spelled by 1-5 surface operators (character references, namespace prefix/default xmlns, white space, comments, PIs, MathJax class attributes, attribute quoting, token-edge space) and canonical MathML, speech and braille must be identical; exhaustive: each of the 2125 names of src/entities.in must expand like the numeric references of the HTML5 expansion; names in neither table must be rejected by name.",
+            "Generated: a base expression (token text may contain runs of XML white space) is re-spelled by 1-5 surface operators (character references incl. references to white space, namespace prefix/default xmlns, white space, comments, PIs, MathJax class attributes, attribute quoting, token-edge space) and canonical MathML, speech and braille must be identical; exhaustive: each of the 2125 names of src/entities.in must expand like the numeric references of the HTML5 expansion; names in neither table must be rejected by name.",
             "Trusts Python's html.entities.html5 as the entity reference; HTML5 names MathCAT does not know may be rejected (allowed by the statement).",
             "DESIGN.md 3/C17"),
     "C16": ("differential property-based testing: every generated split spelling of a locale number against its single-token spelling",
-            "Generated numbers of the locale grammar (US / continental / Swiss / space groups), all cut patterns at the separators (own mo / own mtext / glued left / glued right / uncut) in ten contexts; canonical tree, speech and braille of the split spelling must equal those of the single mn; negative cases (two decimal marks, short group after a comma, operator in between, comma lists in fences) must not fold.",
+            "Generated numbers of the locale grammar (US / continental / Swiss / space groups set through the separator pair, and separators chosen through Language x DecimalSeparator in both call orders), all cut patterns at the separators (own mo / own mtext / glued left / glued right / uncut) in ten contexts; canonical tree, speech and braille of the split spelling must equal those of the single mn; negative cases (two decimal marks, short group after a comma, operator in between, comma lists in fences) must not fold.",
             "Excluded by construction, with the reason recorded in evidence.reject_reasons: leading/trailing commas and trailing decimal marks in their own token (documented as never folded because they cannot be told from punctuation) and a final period where '.' is a separator of the locale.",
             "DESIGN.md 3/C16"),
     "C03": ("property-based testing with a grammar generator over the operator dictionary: validity predicate on every row plus differential against a reference precedence-climbing parser",
-            "Generated well-formed operator/operand sequences over the single-form dictionary operators (and the + - x families), nested fences and author mrows, placed at top level or inside 2-D constructs; oracle A checks every mrow (one priority class or one n-ary family, operand rows bind at least as tightly, no adjacent operands); oracle B requires the bracketing to equal a reference parse computed from operator-info.in priorities, skipped on priority ties between different operators (the dictionary does not define associativity).",
+            "Generated well-formed operator/operand sequences over the single-form dictionary operators (and the + - x families), nested fences, author mrows and embellished infix operators (munder / mover / msub around an operator), the factorial as postfix operator, placed at top level or inside 2-D constructs; oracle A checks every mrow (one priority class or one n-ary family, operand rows bind at least as tightly, no adjacent operands); oracle B requires the bracketing (and the places of implied operators) to equal a reference parse computed from operator-info.in priorities, skipped on priority ties between different operators (the dictionary does not define associativity).",
             "operator-info.in is the specification (a changed priority is a changed specification). Chemistry heuristics are switched off (preference Chemistry=Off); atoms avoid function-name and number-merging heuristics.",
             "DESIGN.md 3/C03"),
     "C04": ("metamorphic property-based testing: distinct decimal literals planted at every operand position of generated textbook expressions must re-occur in the speech",
@@ -40,15 +40,15 @@ CHECKS = {
             "Only numbers are asserted (identifier wording is language specific). Decimal literals are never turned into words by the rules. Known rule-file and post-processing losses are keyed by structural class x language.",
             "DESIGN.md 3/C04"),
     "C05": ("property-based testing with table-stratified character generators; invariant on the output alphabet of speech, overview and navigation speech",
-            "Generated expressions whose token characters come from the language's short table, its full-only table, no table at all, and plain tokens x every language x style x verbosity x capital-letter/override/impairment/overview preferences (TTS none); get_spoken_text, get_overview_text and navigation speech must contain no private-use marker, no raw invisible operator, no [[ ]] and no markup, and be non-empty when the expression has letters or digits.",
+            "Generated expressions whose token characters come from the language's short table, its full-only table, no table at all, and plain tokens (author ids -- plain, empty, blank, repeated -- on some elements) x every language x style x verbosity x capital-letter/override/impairment/overview preferences (TTS none); get_spoken_text, get_overview_text and navigation speech must contain no private-use marker, no raw invisible operator, no [[ ]] and no markup, and be non-empty when the expression has letters or digits.",
             "Private-use characters, [[ ]] and tag-shaped text are not planted (unknown characters and mtext are echoed by design).",
             "DESIGN.md 3/C05"),
     "C06": ("metamorphic property-based testing: planted literals must re-occur as runs of the published digit cells (decimal mark calibrated in-session)",
-            "Generated textbook expressions with distinct integer/decimal literals at every operand position x braille code x code preferences; text codes must contain the literal verbatim, cell codes a contiguous run of the published digit cells (Nemeth lower cells, upper cells elsewhere, lowered cells where a code drops digits) with the decimal-mark cells calibrated by brailling 12.34 alone in the same session.",
+            "Generated textbook expressions (incl. mixed numbers: a whole part directly followed by a fraction) with distinct integer/decimal literals at every operand position x braille code x code preferences; text codes must contain the literal verbatim, cell codes a contiguous run of the published digit cells (Nemeth lower cells, upper cells elsewhere, lowered cells where a code drops digits) with the decimal-mark cells calibrated by brailling 12.34 alone in the same session.",
             "Digit cells are hard-coded from the published codes, not read from the rule files. Known rule-file losses are keyed by code x structural class.",
             "DESIGN.md 3/C06"),
     "C07": ("property-based testing with generators restricted to the characters and elements each code covers; invariant on the output alphabet of braille",
-            "Generated expressions over the keys of the selected code's unicode tables (plus ASCII alphanumerics, typeface variants, capitals, Greek, chemistry, tables, text) x every braille code x highlight style x code preferences, brailled with no id / an id of the expression / a foreign id and through get_navigation_braille; cell codes must consist of U+2800-28FF only and carry no dots 7-8 unless a node of the expression is highlighted; text codes must be free of private-use characters, internal indicator letters and control characters; non-empty when the expression has letters or digits.",
+            "Generated expressions over the keys of the selected code's unicode tables (plus ASCII alphanumerics, typeface variants, capitals, Greek, chemistry, tables, text) x every braille code x highlight style x code preferences, brailled with no id / an id of the expression / a foreign id (again after navigation moves and cursor-routing queries) and through get_navigation_braille; cell codes must consist of U+2800-28FF only and carry no dots 7-8 unless a node of the expression is highlighted; text codes must be free of private-use characters, internal indicator letters and control characters; non-empty when the expression has letters or digits.",
             "U+28CD is accepted as the documented table row separator. Characters outside the code's tables are not generated (passed through by design); merror is excluded (no braille rule).",
             "DESIGN.md 3/C07"),
     "C12": ("model-based property testing over histories of set_preference calls (reference model: map name -> normalised value) plus an exhaustive sweep of the preference table",
@@ -60,15 +60,15 @@ CHECKS = {
             "Word boundaries around concatenated pieces are not asserted (comparison on characters with white space and pause punctuation removed).",
             "DESIGN.md 3/C13"),
     "C19": ("property-based testing with a grammar generator, single-edit mutation and arbitrary strings, plus a coverage-guided libFuzzer target (fz_c19, thorough tier) with the same oracle; reference recogniser + differential against the attribute-removed expression",
-            "Generated intent strings (grammatical, mutants, arbitrary Unicode, honoured form) on 9 kinds of host element x both recovery settings; never a panic; under IgnoreIntent speech succeeds and, for strings a reference recogniser proves illegal, equals the speech without the attribute; under Error illegal strings yield Err; name(args) with a made-up name mentions the name and every referenced literal; speech is repeatable and the intent attributes are still on the stored expression afterwards.",
+            "Generated intent strings (grammatical, mutants, arbitrary Unicode, honoured form) on 12 kinds of host element (incl. rows whose other children have no content) x both recovery settings; never a panic; under IgnoreIntent speech succeeds and, for strings a reference recogniser proves illegal, equals the speech without the attribute; under Error illegal strings yield Err; name(args) with a made-up name mentions the name and every referenced literal; speech is repeatable and the intent attributes are still on the stored expression afterwards.",
             "Intents naming concepts MathCAT knows (plus, power, ...) are only checked for panics when grammatical (wrong arity makes the concept's own rule fail, which the statement does not cover).",
             "DESIGN.md 3/C19"),
     "C10": ("model-based property testing over API histories: every observed output is compared with a fresh-session reference model",
-            "Generated histories (preference changes over 24 preferences (incl. the computed separator pair), other expressions, getters, navigation, cursor routing) followed by a target assignment of all those preferences in generated order, the probe expression, getters in generated order and multiplicity and away-and-back toggles; each output must be byte-identical (ids normalised) to a fresh session that establishes the same assignment, sets the expression and calls that getter once; a share of cases runs beside independent sessions in other threads.",
+            "Generated histories (preference changes over 24 preferences (incl. the computed separator pair), other expressions -- operands include words of every definitions.yaml, whole or spelled letter by letter --, getters, navigation, cursor routing, and 'visits' of the configuration such a word belongs to) followed by a target assignment of all those preferences in generated order, the probe expression, getters in generated order and multiplicity and away-and-back toggles; each output must be byte-identical (ids normalised) to a fresh session that establishes the same assignment, sets the expression and calls that getter once; a share of cases runs beside independent sessions in other threads.",
             "Thread interleavings are sampled, not explored (all state is thread-local). Outputs are only observed while the target assignment is in force (documented: an expression is canonicalised with the preferences current at set_mathml time).",
             "DESIGN.md 3/C10"),
     "C20": ("property-based testing with per-expression exhaustive probing (every node id, every cell index) and a purity snapshot oracle",
-            "Generated textbook expressions x every braille code x highlight style, after random navigation moves; every node id (and a foreign id) is highlighted, the braille position is read and every cell index (plus huge positions) is routed; results must succeed for own ids / inside positions, stay within the braille, name ids of the expression, equal the plain braille when highlighting is off or the id is foreign, and leave the highlight preference, navigation position, speech and plain braille unchanged.",
+            "Generated textbook expressions (incl. Roman numerals and digit groups) x every braille code x highlight style, after random navigation moves; the overview text and the braille of another code are read before the first braille call and again at the end; every node id (and a foreign id) is highlighted, the braille position is read and every cell index (plus huge positions) is routed; results must succeed for own ids / inside positions, stay within the braille, name ids of the expression, equal the plain braille when highlighting is off or the id is foreign, and leave the highlight preference, navigation position, speech and plain braille unchanged.",
             "Clause 'highlighting only adds dots' is a known finding for all cell codes (clean-up passes do not recognise highlighted cells) and is keyed per code.",
             "DESIGN.md 3/C20"),
     "C11": ("stateful property-based testing of navigation histories: invariants after every step plus a fresh-session suffix model",
@@ -76,15 +76,15 @@ CHECKS = {
             "The optional stack-balance hook was not needed: everything is observed through the public API. The suffix model is skipped when modes were toggled before the last set_mathml (NavMode persists by design).",
             "DESIGN.md 3/C11"),
     "C09": ("property-based testing: generated expressions with planted author ids (none/some/all/duplicated/hostile characters) and follow-up speech, navigation and cursor-routing calls; invariants over the returned MathML and every id handed out later",
-            "Generated G-struct / textbook expressions with author ids on no, some or all elements (plain, with spaces, looking like generated ids, with XML special characters, 8% with a duplicated id); every element of the returned MathML has an id, ids are distinct, an author id on a token stays on an element showing that token's text and a uniquely identifiable token keeps its id, an author id on a 2-D element stays on an element of that kind; every id in bookmark marks (SSML/SAPI5), get_navigation_mathml_id after moves and get_navigation_node_from_braille_position is an id of the returned MathML.",
+            "Generated G-struct / textbook expressions (followed by up to 7 navigation steps: any command incl. place markers and jumps, or set_navigation_node with a character offset) with author ids on no, some or all elements (plain, with spaces, looking like generated ids, with XML special characters, 8% with a duplicated id); every element of the returned MathML has an id, ids are distinct, an author id on a token stays on an element showing that token's text and a uniquely identifiable token keeps its id, an author id on a 2-D element stays on an element of that kind; every id in bookmark marks (SSML/SAPI5), get_navigation_mathml_id after moves and get_navigation_node_from_braille_position is an id of the returned MathML.",
             "Id migration is not judged when the author's ids are themselves ambiguous (duplicates): only distinctness is. Content inside annotation elements and mphantom is not displayed and is not tracked.",
             "DESIGN.md 3/C09"),
     "C14": ("fault injection on a private copy of the rules directory: exhaustive enumeration (every reachable file of the default configuration x 8 basic fault kinds x before/after first load) plus property-based generation of (configuration, file, fault, timing, CheckRuleFiles mode, repair mode) sequences; reference = fresh session on the pristine rules",
-            "Enumerated and generated fault sequences on a private copy of Rules/ (deleted, empty, truncated at a byte or at an entry, wrong top-level type, invalid xpath, unknown key, wrong-type value or entry, invalid UTF-8, directory in place of the file, missing rules directory): no call panics; the first error a caller gets for a failing load names the faulted file; after the repair (bytes restored with a newer time stamp and CheckRuleFiles=All, or set_rules_dir to the pristine or the same directory) set_mathml, speech, overview, braille, two navigation moves and navigation braille equal a fresh session on the pristine rules.",
+            "Enumerated and generated fault sequences on a private copy of Rules/ (deleted, empty, truncated at a byte or at an entry, wrong top-level type, invalid xpath, unknown key, wrong-type value or entry, invalid UTF-8, directory in place of the file, missing rules directory): no call panics; the first error a caller gets for a failing load names the faulted file; after the repair (four modes, one of them the original file with its original, older time stamp; bytes restored with a newer time stamp and CheckRuleFiles=All, or set_rules_dir to the pristine or the same directory) set_mathml, speech, overview, braille, two navigation moves and navigation braille equal a fresh session on the pristine rules.",
             "Level fault_enumeration for the enumerated part (reported separately in the evidence: stream 'explicit'); the rest is exploration. Match-time failures (a rule or variable missing from a well-formed but shortened or fall-back file) and 'MathML has not been set' after a failed set_mathml are not load errors and need not name the file. Time stamps are set explicitly and strictly increasing. A fault that stays invisible is a trivial case.",
             "DESIGN.md 3/C14"),
     "C15": ("exhaustive enumeration of the shipped configurations (languages/regions x styles x verbosities, braille codes, fall-back configurations) crossed with a corpus harvested from the repository's tests plus property-based generation of textbook expressions; differential against an English reference session and against the base language for fall-backs",
-            "Every language/region x speech style x verbosity and every braille code found under Rules/ at run time, plus unknown-region and unknown-language configurations, is selected and run over a seed-selected spread of the 1715 <math> literals of the repository's tests (all of them in the thorough tier) and over generated expressions: selecting the configuration, set_mathml, speech, overview, braille, a navigation walk and navigation braille must all succeed, speech must be non-empty for expressions with letters or digits, and a fall-back configuration must give exactly the outputs of its base language.",
+            "Every language/region x speech style x verbosity and every braille code found under Rules/ at run time (one generated case in three selects and uses another configuration first; a regional variant must then speak like a session that only ever had it), plus unknown-region and unknown-language configurations, is selected and run over a seed-selected spread of the 1715 <math> literals of the repository's tests (all of them in the thorough tier) and over generated expressions: selecting the configuration, set_mathml, speech, overview, braille, a navigation walk and navigation braille must all succeed, speech must be non-empty for expressions with letters or digits, and a fall-back configuration must give exactly the outputs of its base language.",
             "Enumeration of configurations is exhaustive, the corpus is a sample. Errors are keyed by (language or code, error class); a class English shows on the same expression (or on the canonical form the configuration produced) is keyed any-configuration; the two classes raised by the navigation engine for nodes without speech of their own are keyed navigation-engine for all languages (known findings). Fall-back equality is not asserted on numbers with separators (separators are chosen from the language code by design).",
             "DESIGN.md 3/C15"),
 }
